@@ -52,7 +52,7 @@ class A(Adapter):
     has_observer = True
 
     def configs(self):
-        return [cfg("r10c10m10", True, r=10, c=10, m=10), cfg("r3c5m2", True, r=3, c=5, m=2), cfg("r6c4m5", r=6, c=4, m=5), cfg("r2c2m1", r=2, c=2, m=1)]
+        return [cfg("r10c10m10", True, r=10, c=10, m=10), cfg("r3c5m2", True, r=3, c=5, m=2), cfg("r6c4m5", True, r=6, c=4, m=5), cfg("r2c2m1", r=2, c=2, m=1)]
 
     def build(self, c):
         from jumanji.environments import Minesweeper
